@@ -52,6 +52,11 @@ CHECKS = {
             "After every step of a history the restorer's four views (RestoreChannel, RestorePeer, ActivePeers, RestoreAll) and the raw key set are compared with a reference set of live channels with snapshots; operations on one channel must leave every other channel's restored value byte-identical.",
             "No crashes here (C10 covers them). LevelDB in 5% of runs.",
             "6/C11"),
+    "C08": ("world", "exploration",
+            "real two-party opening protocol under keyed schedules with scenario-controlled nonce shares; crafted single-condition proposal mutants injected by a raw peer (stranger or channel counterparty) at seeded instants",
+            "(a) honest openings of ledger and sub-channels with drawn parameters: both sides must hold byte-identical parameters, ID, participant order and the same fully signed version-0 state equal to the proposal; openings that differ only in one side's nonce share must yield different IDs. (b) 24 kinds of proposals that break one validity condition are re-serialised (decodability enforced) and delivered to a client with or without a matching parent: the proposal handler must not run, no channel may be created, the process must survive (a dead worker is replayed in a fresh process and reported with the panic site) and a later honest proposal must still succeed.",
+            "Virtual channel openings between three honest clients are not part of the honest workload yet; virtual proposals appear as mutants only. Invalid allocations are not decodable with the native serializer and therefore outside (b)'s quantifier there.",
+            "6/C08"),
 }
 
 NOT_YET = {}
